@@ -46,10 +46,9 @@ struct lq_t : limited_queue<item_t> {
     suspend_point<bool> upop(std::exception_ptr e) { return this->unblock_pop(e); }
 };
 
-// queue<T> with a view of the number of parked promises (precondition of `pushthrow`)
+// queue<T> with a way to ask whether its lock is free
 template <typename T>
 struct q_t : queue<T> {
-    std::size_t nawait() { std::lock_guard _(this->_mx); return this->_awaiters.size(); }
     // asked from another thread (try_lock on a mutex the caller owns would be undefined); retried because try_lock may
     // fail spuriously
     bool lock_is_free() {
@@ -276,11 +275,9 @@ void run_qcase(std::istream &in) {
             }
             head << "push woke=" << r;
         } else if (w[0] == "pushthrow") {
-            // an item whose constructor throws.  Precondition (made explicit, also in the model): no pop is waiting -
-            // otherwise the promise layer has already consumed the waiting promise when the constructor throws.
+            // an item whose constructor throws: push() throws; a waiting pop whose promise it had taken completes as
+            // canceled (the promise layer resolves the future without a value before the exception propagates)
             if constexpr (std::is_void_v<T>) {
-                head << "pushthrow n/a";
-            } else if (c.q->nawait() != 0) {
                 head << "pushthrow n/a";
             } else {
                 try {
@@ -733,14 +730,11 @@ void run_sched(std::istream &in, std::size_t limit) {
                 }, bool_status(res), head);
             }
         } else if (w[0] == "pushthrow") {
-            // precondition: no pop is waiting (see run_qcase); evaluated when the line is read
             if constexpr (std::is_void_v<T> || A::limited) {
                 head << "bad-op";
-            } else if (q->nawait() != 0 || sc.holder != nullptr || !sc.parked.empty()) {
-                head << "pushthrow n/a";
             } else {
                 auto res = std::make_shared<std::string>("nothrow");
-                run_op(false, "pushthrow", [&q, res] {
+                run_op(hold, "pushthrow", [&q, res] {
                     try { (void)(bool)q->push(-1); } catch (const item_error &) { *res = "threw"; }
                 }, [res] { return *res; }, head);
             }
